@@ -10,7 +10,7 @@ CHECKS = {
         "model_checking",
         "Bounded exhaustive exploration of the real Evaluate impls: every function message of a closed representation alphabet "
         "(all four variants + unset oneof, unsorted/repeated terms, all (row,col) positions, explicit zeros, absent/zero linear part, "
-        "degree <= 4, ID extremes 0 and u64::MAX) x every state of a value grid (including states lacking exactly one occurring ID), "
+        "degree <= 4, up to 3 terms (thorough: 4-term linear, 3-entry quadratic over all values, more 3-term polynomials), ID extremes 0 and u64::MAX) x every state of a value grid (including states lacking exactly one occurring ID), "
         "compared bit-exactly with an independent exact-rational evaluator; a non-dyadic sub-alphabet is compared within a rigorous "
         "gamma_n rounding bound. Defects in term-wise accumulation are local, so the small scope contains every shape the code distinguishes.",
         "Trusted: num::BigRational, the harness's message readers (public fields only). Alphabet bounds are stated in the evidence; nothing outside them is claimed.",
@@ -27,7 +27,7 @@ CHECKS = {
     ),
     "C03": (
         "model_checking",
-        "Every function message of the C01 representation alphabet x states over a value grid x every split of the state into fixed/remaining (2^3) x every ordered two-step split (3^3 assignments) through the real partial_evaluate impls (Function and the concrete types, Constraint, RemovedConstraint); "
+        "Every function message of the C01 representation alphabet (quick: <= 2 terms; thorough: <= 3 terms, ~10^5 messages) x states over a value grid x every split of the state into fixed/remaining (2^3) x every ordered two-step split (3^3 assignments) through the real partial_evaluate impls (Function and the concrete types, Constraint, RemovedConstraint); "
         "after each step: message polynomial == exact partial evaluation, no fixed id mentioned, returned id set between the non-zero-occurring and occurring fixed ids, evaluate(remainder) == exact value at the combined state, two steps == one step. "
         "Instances: product family (objective x active lists x removed x dependency none/single/chain) x in-bound states x all 2^4 splits x ordered two-step splits; structural comparison of every function and substituted_value, both orders and at-once compared, and the Solution of partial_evaluate+evaluate compared with the reference evaluator on the original at the combined state under every dependency-map order.",
         "Trusted: exact-rational Poly.partial, reference evaluator (refmodel/inst.rs). All values dyadic so comparison is bit-exact. Out-of-bound and incomplete states are C05's subject.",
@@ -50,7 +50,7 @@ CHECKS = {
     ),
     "C06": (
         "model_checking",
-        "Every Samples message with k sample ids (every ordered set partition of the ids into entries x every assignment of one of 4 pool states to each entry; the pool contains a state omitting the irrelevant variable, two different states with equal objective and constraint values, and a duplicate; k<=3 quick / k<=4 thorough in full, k=5,6 over a 2-state pool, k=7,8 structured; plus every add_sample insertion order for k=3) over an instance family (irrelevant-variable bound shapes, pre-fixed variable, dependency none/single/chain, active+removed constraints), through the real evaluate_samples and SampleSet::get; each extracted Solution compared field by field (and as a whole message) with Instance::evaluate of that sample's state; objective/feasibility/constraint tables must be keyed by exactly the submitted ids.",
+        "Every Samples message with k sample ids (every ordered set partition of the ids into entries x every assignment of one of 4 pool states to each entry; the pool contains a state omitting the irrelevant variable, two different states with equal objective and constraint values, and a duplicate; k<=3 quick / k<=4 thorough in full (thorough also k=5 in full on every 8th instance), k=5,6 over a 2-state pool, k=7,8 structured; plus every add_sample insertion order for k=3) over an instance family (irrelevant-variable bound shapes, pre-fixed variable whose value one pool state contradicts, dependency none/single/chain, active+removed constraints, constraint values exactly on the +-1e-6 tolerance, objectives in quirky representations: split constants, explicit zeros, degree-0 polynomials), through the real evaluate_samples and SampleSet::get; each extracted Solution compared field by field (and as a whole message) with Instance::evaluate of that sample's state; objective/feasibility/constraint tables must be keyed by exactly the submitted ids.",
         "Differential oracle: Instance::evaluate, itself verified against the reference evaluator by C05. All pool states are valid for evaluate.",
         "bounded exhaustive enumeration of Samples messages (all groupings) on the real code, differential vs the single-state path",
     ),
@@ -74,31 +74,31 @@ CHECKS = {
     ),
     "C12": (
         "model_checking",
-        "log_encode on every integer range: every width 0..=4096 x 8 lower ends (-2^20 .. 2^20-w) x fractional offsets {0,.25,.5,.75} on both ends, the value set over ALL 2^n bit patterns computed as the subset-sum set of the returned integer coefficients and required to be exactly ceil(l)..floor(u) (for widths <= 64 additionally the SDK's own evaluate on every pattern); every width 1..2^21 at three lower ends through the complete-sequence criterion (necessary and sufficient for positive integers; cross-validated against brute force on all widths <= 4096). Registration of the new binaries (fresh ids under two list layouts that make last-element and list-length id schemes collide, kind binary, bound [0,1], tagged with the encoded id), single-integer range => constant. Every error condition: unknown id, each non-integer kind, absent bound, no integer in bound, NaN bounds, and the infinite bounds in an rlimit'd (1 GiB) subprocess with a 10 s watchdog, where abort/kill/timeout is the violating outcome; failed calls must leave the instance unchanged.",
+        "log_encode on every integer range: every width 0..=4096 x 8 lower ends (-2^20 .. 2^20-w) x fractional offsets {0,.25,.5,.75,1-5e-7} on both ends, the value set over ALL 2^n bit patterns computed as the subset-sum set of the returned integer coefficients and required to be exactly ceil(l)..floor(u) (for widths <= 64 additionally the SDK's own evaluate on every pattern); every width 1..2^21 at three lower ends through the complete-sequence criterion (necessary and sufficient for positive integers; cross-validated against brute force on all widths <= 4096). Registration of the new binaries (fresh ids under two list layouts that make last-element and list-length id schemes collide, kind binary, bound [0,1], tagged with the encoded id), single-integer range => constant; a second call on the same variable (same or changed bound) must again use fresh ids and cover the new range. Every error condition: unknown id, each non-integer kind, absent bound, no integer in bound, NaN bounds, and the infinite bounds in an rlimit'd (1 GiB) subprocess with a 10 s watchdog, where abort/kill/timeout is the violating outcome; failed calls must leave the instance unchanged.",
         "Trusted: subset-sum DP over exact integer coefficients equals enumeration of bit patterns. Subprocess isolation via fork/exec of the harness binary with RLIMIT_AS.",
         "exhaustive enumeration of integer ranges x all bit patterns on the real code; fault enumeration of error conditions incl. subprocess-isolated non-termination",
     ),
     "C13": (
         "model_checking",
-        "Every inequality f(x)<=0 with f = up to 2 (quick) / 3 (thorough) distinct monomials of degree<=2 + constant, coefficients {+-1,+-2,3,+-1/2,1/3,-2/3,3/4}, constants {-3,-1,-1/2,0,1/2,2}, over 1..3 integer/binary variables, every assignment of 5 boxes to the variables, Linear/Quadratic/Polynomial representations, another constraint present, two variable-list layouts; convert_inequality_to_equality_with_integer_slack x max_integer_range {1,3,100} and add_integer_slack_to_inequality x slack_upper_bound {1,2,5}. Oracle: brute force over EVERY lattice point of the box and EVERY slack value in the new variable's bounds: feasible set in x unchanged; slack integer, fresh id, bound [0,S], same constraint id, b reported = slack coefficient; moved-to-removed => constraint unchanged and satisfied everywhere; InfeasibleDetected => no clearly feasible lattice point; for linear f the determined outcomes are asserted in the converse direction too; rejections (unknown id, equality, continuous variable, range above limit) leave the instance unchanged.",
+        "Every inequality f(x)<=0 with f = up to 2 (quick) / 3 (thorough) distinct monomials of degree<=2 + constant, coefficients {+-1,+-2,3,+-1/2,1/3,-2/3,3/4}, constants {-3,-1,-1/2,0,1/2,2}, over 1..3 integer/binary variables, every assignment of 5 boxes to the variables, Linear/Quadratic/Polynomial and unnormalised (split-term) representations, another constraint present, a second conversion in the same instance on a sub-grid, two variable-list layouts; convert_inequality_to_equality_with_integer_slack x max_integer_range {1,3,100} and add_integer_slack_to_inequality x slack_upper_bound {1,2,5}. Oracle: brute force over EVERY lattice point of the box and EVERY slack value in the new variable's bounds: feasible set in x unchanged; slack integer, fresh id, bound [0,S], same constraint id, b reported = slack coefficient; moved-to-removed => constraint unchanged and satisfied everywhere; InfeasibleDetected => no clearly feasible lattice point; for linear f the determined outcomes are asserted in the converse direction too; rejections (unknown id, equality, continuous or semi-continuous variable, range above limit) leave the instance unchanged.",
         "Feasibility at lattice points uses the 1e-6 rule on values that are multiples of 1/12 (far from the tolerance). add_integer_slack's exact-zero threshold with non-dyadic coefficients is not asserted at the boundary (counted as boundary_cases_not_asserted). slack_upper_bound=0 and unbounded variables are outside the alphabet.",
         "bounded exhaustive enumeration of inequalities x boxes with brute-force lattice/slack oracle on the real code",
     ),
     "C14": (
         "model_checking",
-        "Explicit-state breadth-first search with stateright over the real Instance: from each of 11 initial instances (3 constraint-function sets, 0/1/2/all constraints initially removed) every action relax(id, reason in {a,b}, params in {none,{k:v}}) / restore(id) for every constraint id and the unknown id 99. The instance message is the whole state (dedup key = message bytes + reference model), so every history of any length is covered, not only length <= 8. Every transition is compared with a two-set reference model (op on an id not in the expected list must fail and leave the instance equal to its clone); every reachable state is checked: multiset of (id, function, equality, metadata) over active+removed unchanged, ids partitioned, recorded reasons/parameters, and on all 27 grid states per-constraint values and feasible equal the initial instance's while feasible_relaxed follows the currently active constraints.",
+        "Explicit-state breadth-first search with stateright over the real Instance: from each of 12 initial instances (3 constraint-function sets with 3-4 constraints, 0/1/2/all initially removed; thorough adds a 5-constraint set: 2.0e5 states, 5.9e6 transitions) every action relax(id, reason in {a, empty string}, params in {none,{k:v}}) / restore(id) for every constraint id and the unknown id 99. The instance message is the whole state (dedup key = message bytes + reference model), so every history of any length is covered, not only length <= 8. Every transition is compared with a two-set reference model (op on an id not in the expected list must fail and leave the instance equal to its clone); every reachable state is checked: multiset of (id, function, equality, metadata) over active+removed unchanged, ids partitioned, recorded reasons/parameters, and on all 27 grid states per-constraint values and feasible equal the initial instance's while feasible_relaxed follows the currently active constraints.",
         "stateright 0.31 BFS; violations are collected through a side channel so exploration continues and every signature is reported; replay re-executes the recorded history without the explorer.",
         "explicit-state model checking (stateright BFS) of the real code with a reference model in lock-step",
     ),
     "C15": (
         "model_checking",
-        "(a) as_minimization_problem on every objective of the medium representation family x both senses, once and twice: sense, objective == +-f as exact polynomials, every other field untouched, idempotent, identical ranking of all pairs of grid states. (b) every sample set with k<=5 (quick) / k<=7 (thorough; k=8 over two objective values) samples where each sample independently takes one of 3 objective values (so ties occur) and one of 3 feasibility classes (infeasible / feasible for remaining constraints only / feasible for all), produced by the real evaluate_samples, x both senses x {current fields, legacy fields decoded by prost}: the returned id is feasible in the requested sense and unbeaten under the set's sense, Err exactly when no sample is feasible; feasible-id sets and the best Solution getters agree.",
+        "(a) as_minimization_problem on every objective of the medium representation family x both senses, once and twice: sense, objective == +-f as exact polynomials, every other field untouched, idempotent, identical ranking of all pairs of grid states. (b) every sample set with k<=6 (quick) / k<=7 (thorough; k=8 over two objective values) samples where each sample independently takes one of 3 objective values (so ties occur) and one of 3 feasibility classes (infeasible / feasible for remaining constraints only / feasible for all), produced by the real evaluate_samples, x both senses x {current fields, legacy fields decoded by prost} x {values grouped by state as evaluate_samples writes them, regrouped by value as another writer may}: the returned id is feasible in the requested sense and unbeaten under the set's sense, Err exactly when no sample is feasible; feasible-id sets and the best Solution getters agree.",
         "Legacy = tag 4 holds remaining-constraint feasibility, tag 6 all-constraint feasibility, tag 7 absent. Unspecified sense and unset-oneof objectives are outside the alphabet.",
         "bounded exhaustive enumeration of (objective, sense) and of sample-set feasibility/objective patterns on the real code",
     ),
     "C16": (
         "model_checking",
-        "All 26 valid intervals over endpoints {-inf,-2,-0.5,0,0.5,3,+inf}: every ordered pair through + and * (also += and *=), powers 0..6, scaling/shifting by non-zero numbers; each result must be a valid interval (no panic, no NaN, lower<=upper) enclosing the exact pointwise result for every alphabet point of the operands (corners, faces, interior, +-1000 on infinite sides). as_integer_bound on every 1/4-grid interval in [-3,3] (and infinite sides, and endpoints 1e-7 off the grid) containing an integer. evaluate_bound for a degree<=4 function family (all representations, repeated ids => powers) x every assignment of the 26 intervals or no entry to two variables x every grid point of the box. content_factor for all reduced p/q with q,|p|<=60 in four representations, all ordered pairs (q<=12 quick, q<=60 thorough = 4.8M pairs) and triples from a small pool, against lcm(q)/gcd(p) exactly.",
+        "All 26 valid intervals over endpoints {-inf,-2,-0.5,0,0.5,3,+inf} (thorough: 9 endpoints, 43 intervals): every ordered pair through + and * (also += and *=), powers 0..6, scaling/shifting by non-zero numbers incl. scaling by +-2^-60; each result must be a valid interval (no panic, no NaN, lower<=upper) enclosing the exact pointwise result for every alphabet point of the operands (corners, faces, interior, +-1000 on infinite sides). as_integer_bound on every 1/4-grid interval in [-3,3] (and infinite sides, and endpoints 1e-7 off the grid) containing an integer. evaluate_bound for a degree<=4 function family (all representations, repeated ids => powers) x every assignment of the 26 intervals or no entry to two variables x every grid point of the box. content_factor for all reduced p/q with q,|p|<=60 in four representations, all ordered pairs (q<=12 quick, q<=60 thorough = 4.8M pairs) and triples from a small pool, against lcm(q)/gcd(p) exactly.",
         "All interval endpoints, points and coefficients are small dyadic rationals, so pointwise values are exact in f64. Scaling by 0 and as_integer_bound on integer-free intervals are excluded by the property.",
         "bounded exhaustive enumeration of intervals/boxes/points and of rational coefficient pairs on the real code vs exact arithmetic",
     ),
@@ -110,13 +110,13 @@ CHECKS = {
     ),
     "C17": (
         "model_checking",
-        "Abstract LP/MIP models rendered by the harness's own free-format MPS writer and loaded by the real readers (load_raw_reader, load_zipped_reader, load_file): the FULL PRODUCT of 27 row specs (E/L/G x range none/+2/-2 x rhs none/4/-3) x 32 column specs (integer marker x 16 bound specs: none, UP, negative UP, LO, LO+UP in both orders, FX, MI, PL, FR, BV, LI, UI, MI+UP, LI+UI, LO 0+UP 1) for one row x one column under every layout (3/5-field lines, comment lines, blank lines, wide separators) x 5 sense forms x 4 name styles (foreign / OMMX_-style for columns and rows, three objective row names) x objective constant x sparsity patterns; the full 27^2 x 32^2 product for two rows x two columns; a fixed 5x6 model under all layouts; no-row models. The expected instance is computed from the abstract model (never by parsing) and compared by name: objective coefficients and constant (-RHS of the file's objective row), sense, one or two constraints per row by the RANGES table, effective domain per column, names / recovered ids. Fault files: undeclared row in COLUMNS / RANGES, unknown row / bound type, bad marker keyword, bad OBJSENSE word, unparsable numbers in every section, at every applicable line of a base file => Err, never a panic.",
+        "Abstract LP/MIP models rendered by the harness's own free-format MPS writer and loaded by the real readers (load_raw_reader, load_zipped_reader, load_file): the FULL PRODUCT of 27 row specs (E/L/G x range none/+2/-2 x rhs none/4/-3) x 40 column specs (integer marker x 20 bound specs: none, UP, negative UP, LO, LO+UP in both orders, LO+negative UP in both orders, FX, MI, PL, FR, BV, LI, UI, MI+UP, MI+negative UP, LI+UI, LO 0+UP 1, UP 1e30) for one row x one column under every layout (3/5-field lines, comment lines, blank lines, wide separators) x 5 sense forms x 5 name styles (foreign / OMMX_-style / mixed for columns and rows, three objective row names) x objective constant x sparsity patterns; the full 27^2 x 40^2 product for two rows x two columns; a fixed 5x6 model under all layouts; no-row models. The expected instance is computed from the abstract model (never by parsing) and compared by name: objective coefficients and constant (-RHS of the file's objective row), sense, one or two constraints per row by the RANGES table, effective domain per column, names / recovered ids. Fault files: undeclared row in COLUMNS / RANGES, unknown row / bound type, bad marker keyword, bad OBJSENSE word, unparsable numbers in every section, at every applicable line of a base file => Err, never a panic.",
         "Residual un-owned nondeterminism: HashSet/HashMap order inside the parser (cannot change a correct result as compared). Outside the alphabet: UP 0 without LO, RANGES 0, second N row, RHS on an undeclared row.",
         "bounded exhaustive enumeration of abstract models x layouts rendered by an independent writer, loaded by the real parser; fault enumeration for the error alphabet",
     ),
     "C18": (
         "model_checking",
-        "Every linear instance of the product: 1..2 (quick) / 1..3 (thorough) used variables with ids {4,9,1} in rotated list order plus an unused variable with the largest id, each over 28 kind x bound specs (continuous/integer x {absent,[0,1],[-3,5],[2,inf),(-inf,4],(-inf,inf),[-5,-1],[0,0],[0,inf),[-3,0],(-inf,0],[1,1]}, binary x {absent,[0,1],[0,0],[1,1]}) x objective forms x constraint lists (0..2, = / <=, constant-only included, ids {40,3}) with function variants rotating over every message type able to hold a linear function, both senses; written with mps::write_file and read back with mps::load_file in a private scratch directory. Oracle: same sense, objective and every constraint equal as polynomials under the same variable and constraint ids with the same equality, same effective value domain (integrality + bounds, unset = unbounded, binary = integer in [0,1]) for every mathematically used variable. Nonlinear objective / constraint (4 shapes, each position) must be refused with the error variant naming the offender.",
+        "Every linear instance of the product: 1..2 (quick) / 1..3 (thorough) used variables with ids {4,9,1} in rotated list order plus an unused variable with the largest id, each over 30 kind x bound specs (incl. endpoints exactly 0, degenerate and huge finite bounds) (continuous/integer x {absent,[0,1],[-3,5],[2,inf),(-inf,4],(-inf,inf),[-5,-1],[0,0],[0,inf),[-3,0],(-inf,0],[1,1]}, binary x {absent,[0,1],[0,0],[1,1]}) x objective forms x constraint lists (0..2, = / <=, constant-only included, ids {40,3}) with function variants rotating over every message type able to hold a linear function incl. unnormalised ones (a term listed twice, unsorted), names on some variables / constraints, both senses; written with mps::write_file and read back with mps::load_file in a private scratch directory. Oracle: same sense, objective and every constraint equal as polynomials under the same variable and constraint ids with the same equality, same effective value domain (integrality + bounds, unset = unbounded, binary = integer in [0,1]) for every mathematically used variable. Nonlinear objective / constraint (4 shapes, each position) must be refused with the error variant naming the offender.",
         "Unnormalised (repeated-id) linear terms are outside the alphabet; variables not mathematically used are not compared (the property restricts to used variables).",
         "bounded exhaustive enumeration of linear instances through the real writer+reader round trip",
     ),
@@ -128,13 +128,13 @@ CHECKS = {
     ),
     "C20": (
         "model_checking",
-        "Explicit exploration of add-operation histories: every sequence of length 0..3 (quick) / 0..4 (thorough, 70k archives) over the 16-action alphabet (4 layer kinds x {empty message whose bytes coincide across kinds so digests collide, non-trivial message} x {no annotations, all annotations}) and longer histories (to 5 / 6) over a sub-alphabet; each history is replayed from scratch through the real Builder::new_archive_unnamed..build() into a local OCI archive in a private scratch directory, reopened with Artifact::from_oci_archive and compared with a Vec<(media type, bytes, annotations)> reference: manifest order / media types / sha256 digests (computed with sha2) / annotations; get_layer by digest; typed getter of the stored kind returns an equal message and annotations, the other three fail; unknown digest fails; per-kind descriptor sub-sequences; positional listings get_instances / get_solutions. Annotation accessors: every single field, every pair of fields and all fields at once for the four annotation types (title, 1 and 3 authors, created with sub-second precision and non-UTC offsets, licence, dataset, counts, user keys, start/end, instance and solver digests, parameters) after the archive round trip. An image with a foreign artifact type must not yield a manifest.",
+        "Explicit exploration of add-operation histories: every sequence of length 0..3 (quick) / 0..4 (thorough, 70k archives) over the 16-action alphabet (4 layer kinds x {empty message whose bytes coincide across kinds so digests collide, non-trivial message} x {no annotations, all annotations}) and longer histories (to 5 / 6) over a sub-alphabet; each history is replayed from scratch through the real Builder::new_archive_unnamed..build() into a local OCI archive in a private scratch directory, reopened with Artifact::from_oci_archive and compared with a Vec<(media type, bytes, annotations)> reference: manifest order / media types / sha256 digests (computed with sha2) / annotations; get_layer by digest; typed getter of the stored kind returns an equal message and annotations, the other three fail; unknown digest fails; per-kind descriptor sub-sequences; positional listings get_instances / get_solutions. Annotation accessors: every single field, every pair of fields and all fields at once for the four annotation types (title, 1 and 3 authors, created with sub-second precision and non-UTC offsets, licence, dataset, counts, user keys, start/end, instance and solver digests, parameters) after the archive round trip. An image with a foreign artifact type, or a plain image manifest without artifactType, must not yield a manifest; archives written without the SDK's builder (ocipkg + the published media types and annotation keys, which are literals in the harness) must be readable; the stored hex under another digest algorithm is an unknown digest.",
         "With equal digests a digest-only lookup cannot distinguish layers: typed getters are asserted against the first layer with that digest (see evidence assumptions); positional listings are asserted strictly. No registry access (local archives only).",
         "explicit-state exploration of operation histories on the real builder/reader vs a Vec reference model",
     ),
     "C07": (
         "model_checking",
-        "The model is the schema itself, parsed from proto/ommx/v1/*.proto by the harness's own parser (31 messages, 121 fields, 5 enums). (1) Binding the model to the implementations, exhaustively over every message / field / enum value: the prost attributes of rust/ommx/src/ommx.v1.rs (struct <-> message, field name, tag, type, optional/repeated/map/oneof, enum discriminants and as_str_name tables), the serialized FileDescriptorProto embedded in each python/ommx/ommx/v1/*_pb2.py (extracted with ast, decoded with the harness's own wire decoder) and the field lists of the .pyi stubs must all equal the model. (2) Every model state of every message type is replayed on the real prost code: every subset of field slots (all subsets for <= 8 slots, size <= 3 otherwise) x every alternative value per slot (repeated with 1-2 elements, maps with 1-2 entries, each oneof arm, nested messages populated one level deep and present-but-empty, every declared enum value and an undeclared one, explicit-presence defaults), encoded by the harness's own schema-driven encoder in 5 encodings (packed / unpacked repeated scalars, reversed field order, appended unknown fields of every wire type) -> M::decode must succeed -> the set of Rust fields that changed (read from the Debug rendering, which names every Rust field) must be exactly the fields sent and enum values must render as the schema's names -> encode_to_vec -> the harness's own decoder must recover the content with schema-conforming wire types -> decode(encode(m)) == m. (3) data/random_lp_instance.ommx, written by an earlier release, must open, decode, validate and re-encode to an equal message.",
+        "The model is the schema itself, parsed from proto/ommx/v1/*.proto by the harness's own parser (31 messages, 121 fields, 5 enums). (1) Binding the model to the implementations, exhaustively over every message / field / enum value: the prost attributes of rust/ommx/src/ommx.v1.rs (struct <-> message, field name, tag, type, optional/repeated/map/oneof, enum discriminants and as_str_name tables), the serialized FileDescriptorProto embedded in each python/ommx/ommx/v1/*_pb2.py (extracted with ast, decoded with the harness's own wire decoder) and the field lists of the .pyi stubs must all equal the model. (2) Every model state of every message type is replayed on the real prost code: every subset of field slots (all subsets for <= 8 slots, size <= 3 otherwise) x every alternative value per slot (repeated with 1-2 elements, maps with 1-2 entries, each oneof arm, nested messages populated one level deep and present-but-empty, every declared enum value and an undeclared one, explicit-presence defaults), encoded by the harness's own schema-driven encoder in 5 encodings (packed / unpacked repeated scalars, reversed field order, appended unknown fields of every wire type) -> M::decode must succeed -> the set of Rust fields that changed (read from the Debug rendering, which names every Rust field) must be exactly the fields sent and enum values must render as the schema's names -> encode_to_vec -> the harness's own decoder must recover the content with schema-conforming wire types -> decode(encode(m)) == m. (3) data/random_lp_instance.ommx, written by an earlier release, must open, decode, validate and re-encode to an equal message; archives written by another conforming implementation (ocipkg + the published media types / annotation keys as literals) must be readable through the typed getters.",
         "No Python protobuf runtime is installed: the Python classes are not executed; their embedded descriptors are compared statically. Trusted base of the static step (prost's derive honours its attributes) is exactly what the dynamic step checks. python3 (stdlib only) is used for the three schema scrapers.",
         "explicit enumeration of schema states replayed on the real codec through an independent codec, plus exhaustive static binding of the schema model to the generated bindings",
     ),
